@@ -44,6 +44,45 @@ DEP_KEYS = {'after_evolutions', 'after_migrations', 'before_evolutions',
             'before_migrations'}
 
 
+def _chain_direction(ctx, m, call, nk, dk):
+    """'forward' when node_key names a unit created right here (all reaching
+    definitions are creation calls) and dep_node_key names the carried-over
+    previous unit (all reaching definitions are copies of another node
+    variable); 'reversed' for the opposite; None otherwise."""
+    from ..flow import ReachingDefs
+    if not (isinstance(nk, ast.Attribute) and isinstance(dk, ast.Attribute)
+            and nk.attr == 'key' and dk.attr == 'key' and
+            isinstance(nk.value, ast.Name) and isinstance(dk.value, ast.Name)):
+        return None
+    g = ctx.cfg(m)
+    rd = ReachingDefs(g, m.params)
+    node = next((n for n in g.nodes if call in n.calls()), None)
+    if node is None:
+        return None
+
+    def kind(name):
+        kinds = set()
+        for d in rd.reaching(node, name):
+            if d.kind == 'mutate':
+                continue
+            v = d.value
+            if isinstance(v, ast.Call):
+                kinds.add('created')
+            elif isinstance(v, ast.Name):
+                kinds.add('copied')
+            else:
+                kinds.add('?')
+        return kinds
+    a, b = kind(nk.value.id), kind(dk.value.id)
+    if nk.value.id == dk.value.id:
+        return None
+    if a == {'created'} and b == {'copied'}:
+        return 'forward'
+    if a == {'copied'} and b == {'created'}:
+        return 'reversed'
+    return None
+
+
 def r1_edge_direction(ctx):
     ctx.rule('R-C09.1')
     p = ctx.program
@@ -94,13 +133,16 @@ def r1_edge_direction(ctx):
                 ctx.finding(m, c, '"after" requirement with reversed edge: '
                             'node_key=%s dep_node_key=%s' % (unparse(nk),
                                                              unparse(dk)))
-        elif 'prev_node' in unparse(dk) and unparse(nk) == 'node.key':
-            ctx.ok(m, 'sequence chaining: the later unit depends on the '
-                   'previous one', c)
-        elif m.name == 'add_migration_plan' and unparse(nk) == 'node.key' \
-                and tgt_dk:
+        elif m.name == 'add_migration_plan' and tgt_dk and not tgt_nk:
             ctx.ok(m, 'migration parents become dependencies of the '
                    'migration', c)
+        elif _chain_direction(ctx, m, c, nk, dk) == 'forward':
+            ctx.ok(m, 'sequence chaining: the later unit depends on the '
+                   'previous one', c)
+        elif _chain_direction(ctx, m, c, nk, dk) == 'reversed':
+            ctx.finding(m, c, 'sequence chaining with reversed edge: the '
+                        'freshly created unit (%s) is made a dependency of '
+                        'the previous one (%s)' % (unparse(dk), unparse(nk)))
         else:
             ctx.finding(m, c, 'add_dependency(node_key=%s, dep_node_key=%s) '
                         'does not match any known direction pattern: the '
